@@ -66,7 +66,8 @@ def canon_results(res):
 # ---------------------------------------------------------------------------
 # running histories, one process each, on several driver processes at a time
 # ---------------------------------------------------------------------------
-def run_parallel(exe, histories, tag, nproc, meta, timeout_ms=None, timeout=3000):
+def run_parallel(exe, histories, tag, nproc, meta, timeout_ms=120000, timeout=3000):
+    """timeout_ms: the harness watchdog per forked child - generous, so that machine load can never look like a hang"""
     nproc = max(1, min(nproc, len(histories)))
     slices = [list(range(i, len(histories), nproc)) for i in range(nproc)]
     out = [None] * nproc
@@ -288,7 +289,7 @@ def cls_of_lines(lines):
 def validate_executions(chk, execs, tag, sources, timeout=2400):
     """execs: list of line lists; sources[i]: what to store in the replay artefact for execution i"""
     if not execs:
-        return 0
+        return set()
     acc, rej, stats = trace.validate(os.path.join(SPEC_LOG, "TraceLogTrace.tla"), os.path.join(SPEC_LOG, "TraceLogTrace.cfg"),
                                      execs, tag, workers=1, timeout=timeout, reset_key="e", max_rejections=8)
     chk.cov["traces_validated_against_impl"] += acc + len(rej)
@@ -311,7 +312,7 @@ def validate_executions(chk, execs, tag, sources, timeout=2400):
         rep = {"kind": "trace", "property": chk.pid, "tag": tag, "source": sources[rj["exec"]], "rejected_at": rj["line"], "context": ctx,
                "lines": lines if len(lines) <= 400 else None}
         chk.violation(sig, what, rep)
-    return len(rej)
+    return {rj["exec"] for rj in rej}
 
 
 def corrupted_trace_control(chk, lines, tag):
@@ -319,7 +320,7 @@ def corrupted_trace_control(chk, lines, tag):
     altered / dropped / duplicated / moved to the end must each be rejected by TraceLogTrace (otherwise the validation is vacuous)"""
     rel = [i for i, ln in enumerate(lines) if ln["e"] == "Log" and ln["ph"] in ("B", "E", "i") or (ln["e"] == "Log" and ln["ph"] == "C" and ln["name"] != "cpuUtilization" and not ln["name"].startswith("rkTrace"))]
     named = [i for i in rel if lines[i]["ph"] != "E"]
-    if len(named) < 4:
+    if len(named) < 4 or lines[-1]["e"] != "End":
         raise tla.InfraError("corrupted-trace control: execution too small")
     rnd = random.Random(chk.seed)
     variants = []
@@ -496,8 +497,12 @@ def run_tracelog(chk, quick, tmp, rnd):
             raise tla.InfraError("vacuity guard: no thread recorded exactly %d events" % must)
     chk.cov["long_logs"] = {"executions": len(cfgs), "recorded_events": nev, "events_per_thread": sizes,
                             "max_threads": max(len(st["arg"]["progs"]) for c in cfgs for st in c[1] if st["a"] == "RunThreads")}
-    validate_executions(chk, execs, "c20-long", sources)
-    corrupted_trace_control(chk, execs[next(i for i, c in enumerate(cfgs) if c[0] == "control")], "c20-control")
+    rejected = validate_executions(chk, execs, "c20-long", sources)
+    ctl = next(i for i, c in enumerate(cfgs) if c[0] == "control")
+    if rejected and (ctl in rejected or ctl > max(rejected)):
+        chk.note("corrupted-trace control skipped: the control execution itself was rejected or not reached")
+    else:
+        corrupted_trace_control(chk, execs[ctl], "c20-control")
     chk.cov["distinct_nontrivial"] += sum(1 for e in execs if any(ln["e"] == "Rec" for ln in e))
     big = next(i for i, c in enumerate(cfgs) if c[0] == "chunk+1")
     chk.add_sample({"kind": "recorded-execution", "actions": cfgs[big][1], "first_lines": execs[big][:3] + execs[big][CHUNK + 1:CHUNK + 4],
